@@ -143,13 +143,27 @@ class StrBaseException:
         raise KeyboardInterrupt()
 
 
-HOSTILE = {'slots_getattr': SlotsGetattrRuntime, 'getattribute': GetattributeRuntime, 'imposter_list': ImposterList,
+class DictLenRaises(dict):
+    def __len__(self):
+        raise RuntimeError('backend down (len)')
+
+
+class DictKeysRaise(dict):
+    def keys(self):
+        raise RuntimeError('backend down (keys)')
+
+    def __getitem__(self, k):
+        raise RuntimeError('backend down (getitem)')
+
+
+HOSTILE = {'dict_len_raises': lambda: DictLenRaises(a=1), 'dict_keys_raise': lambda: DictKeysRaise(a=1, b=2),
+           'slots_getattr': SlotsGetattrRuntime, 'getattribute': GetattributeRuntime, 'imposter_list': ImposterList,
            'len_raises_list': lambda: _LenRaisesList([1, 2]), 'args_raises': ArgsRaises,
            'args_not_iterable': ArgsNotIterable, 'dict_prop_raises': DictPropRaises, 'dict_not_mapping': DictNotMapping}
 OUTSIDE = {'str_base_exception': StrBaseException}      # outside the claimed domain (BaseException from __str__)
 KIT_CLASSES = (Plain, Priv, Slotted, StrRaises, ReprRaises, LenRaises, GetattrAttrError, EqRaises, MyList, MyDict,
                MyError, SlotsGetattrRuntime, GetattributeRuntime, ImposterList, _LenRaisesList, ArgsRaises,
-               ArgsNotIterable, DictPropRaises, DictNotMapping, StrBaseException)
+               ArgsNotIterable, DictPropRaises, DictNotMapping, StrBaseException, DictLenRaises, DictKeysRaise)
 
 
 def _gen():
@@ -454,7 +468,7 @@ def _drive(case, objs, act_ids):
         src, line = host_source(case)
         glb = {'__name__': 'c05host'}
         exec(compile(src, HOST_FILE, 'exec'), glb)
-        actions = [LocationAction('tp%d' % i, None, action_config(case['actions'][i], case),
+        actions = [LocationAction('tp%d' % i, case['actions'][i].get('condition'), action_config(case['actions'][i], case),
                                   LocationAction.ActionType.Snapshot) for i in act_ids]
         if case.get('one_trigger'):
             trigs = [Trigger(LineLocation(HOST_BASE, line, Location.Position.START), actions)]
@@ -528,6 +542,7 @@ def run_case(case):
     # objects alive during the whole run: ids usable to map table entries to objects
     _, _, pre_keep = describe_heap(list(frames_locals))
     pre_ids = {id(o) for o in pre_keep}
+    obs['due'] = [is_due(a.get('condition'), glb, host_locals) for a in case['actions']]
     watch_vals = []
     for a in case['actions']:
         vals = []
@@ -571,6 +586,24 @@ def run_case(case):
     return obs
 
 
+TRUTHY = ('yes', 'true', 't', '1', 'y')
+
+
+def is_due(cond, glb, loc):
+    """the statement's reading of a tracepoint condition: absent/blank = due; otherwise the text of its value must be a
+    truthy word; a condition that cannot be evaluated or whose value cannot be turned into text is not due."""
+    if cond is None or not cond.strip():
+        return True
+    try:
+        v = eval(cond, glb, loc)
+    except BaseException as e:   # noqa: B902 — evaluate_expression hands the exception on as the value
+        v = e
+    try:
+        return str(v).lower() in TRUTHY
+    except Exception:
+        return False
+
+
 def watch_exprs(act):
     out = [('watch', w) for w in act.get('watches', [])]
     if act.get('log') is not None:
@@ -599,6 +632,8 @@ def model_request(case, obs):
         return None
     acts = []
     for ai, a in enumerate(case['actions']):
+        if not obs.get('due', [True] * len(case['actions']))[ai]:
+            continue
         lim = limits_of(a['limits'])
         ft = case.get('frame_type', 'single_frame')
         frames = []
@@ -642,7 +677,8 @@ def compare(case, obs, resp):
     snaps = {s['tp']: s for s in obs.get('snapshots', [])}
     if len(snaps) != len(obs.get('snapshots', [])):
         out.append('more than one snapshot for one tracepoint id')
-    for i, m in enumerate(resp['actions']):
+    due_ids = [i for i in range(len(case['actions'])) if obs.get('due', [True] * len(case['actions']))[i]]
+    for i, m in zip(due_ids, resp['actions']):
         s = snaps.get('tp%d' % i)
         if 'failed' in m:
             if s is not None:
@@ -682,7 +718,7 @@ class Ref:
             return 'dict'
         if t in LIST_TYPES:
             return 'seq'
-        if isinstance(o, Exception) and (type(o).__module__ == 'builtins' or type(o) is MyError):
+        if issubclass(t, Exception) and (t.__module__ == 'builtins' or t is MyError):
             return 'exc'
         if type(o) in (Plain, Priv, StrRaises, ReprRaises, LenRaises, EqRaises):
             return 'obj'
@@ -751,7 +787,9 @@ def modifiers(name):
 
 # ------------------------------------------------------------------------------------- generation
 NAMES = ['a', 'b', 'c', 'd', 'e', 'f', 'g', 'h', 'k', 'm', 'n', 'p', 'q', 'r', 's', 't', 'u', 'v', 'w', 'x', 'y', 'z',
-         '_prot', '__priv', 'data', 'items', 'value', 'self', 'résumé', 'cfg', 'l2', 'obj1']
+         '_prot', '__priv', 'data', 'items', 'value', 'self', 'résumé', 'cfg', 'l2', 'obj1',
+         # names that begin with '_' + the type name of a container (only attributes of objects are "private names")
+         '_dict_size', '_list_y', '_Plain_z', '_dictx', '_tuple_t', '_MyDict_k']
 ATOM_KEYS = sorted(ATOMS)
 HOSTILE_KEYS = sorted(HOSTILE)
 
@@ -893,7 +931,7 @@ def gen_graph(rng, n, lim, share=0.2, hostile=0, exotic=0.06, outside=False, tre
             attrs = []
             used = set()
             for _ in range(rng.randint(0, 5)):
-                name = rng.choice(NAMES[:24] + ['_Plain__hidden', '_Plainx', '_prot', '__dunder__'])
+                name = rng.choice(NAMES[:24] + ['_Plain__hidden', '_Plainx', '_prot', '__dunder__', '_dict_size', '_list_y'])
                 if name in used:
                     continue
                 used.add(name)
@@ -955,6 +993,13 @@ def gen_limits(rng, small=True):
 def gen_watches(rng, specs, locs):
     """side-effect free expressions over the locals: a local, a part of a local, fresh temporaries, failures."""
     out = []
+    if rng.random() < 0.12:
+        # equal-but-distinct temporaries, then another temporary of the same size: none may share an id
+        name = rng.choice(locs)[0] if locs else '0'
+        a, b = rng.choice([('[%s, 1]' % name, '[%s, 2]' % name), ('{"k": 1}', '{"k": 2}'), ('(%s, 7)' % name, '(%s, 8)' % name),
+                           ('tuple([1, 2, 3])', 'tuple([4, 5, 6])'), ('[1, 2]', '[3, 4]'),
+                           ('"hello " + "world"', '"hello " + "there"')])
+        out += [a, a, b] if rng.random() < 0.7 else [name, a, a, b]
     for _ in range(rng.choice([0, 0, 1, 1, 2, 3])):
         r = rng.random()
         name, j = rng.choice(locs) if locs else ('nope', None)
@@ -1245,6 +1290,10 @@ def judge_total(case, obs, live):
         snaps.setdefault(s['tp'], []).append(s)
     for i, a in enumerate(case['actions']):
         got = snaps.get('tp%d' % i, [])
+        if not obs.get('due', [True] * len(case['actions']))[i]:
+            if got:
+                v.append(f'tracepoint tp{i}: a snapshot although its condition {a.get("condition")!r} does not hold')
+            continue
         if len(got) != 1:
             v.append(f'tracepoint tp{i}: {len(got)} snapshots handed to the push service, 1 is due')
             continue
